@@ -5,8 +5,8 @@ from props import ep_common as E
 from props import c08
 
 PROP = "C07"
-LAKE_TARGETS = ["Uflow.Props.C07", "Uflow.Props.C07Client", "Uflow.Props.C07Refuse", "Uflow.Props.C07SrvInit", "uflow_driver"]
-PROPS_FILES = ["C07", "C07Client", "C07Refuse", "C07SrvInit"]
+LAKE_TARGETS = ["Uflow.Props.C07", "Uflow.Props.C07Client", "Uflow.Props.C07Refuse", "Uflow.Props.C07SrvInit", "Uflow.Props.C07SrvInit2", "uflow_driver"]
+PROPS_FILES = ["C07", "C07Client", "C07Refuse", "C07SrvInit", "C07SrvInit2"]
 TRUSTED_BASE = c08.TRUSTED_BASE
 ASSUMPTIONS = ["nonces are what the wire shows: the harness reads them off the captured SYN / SYN-ACK frames"]
 RULE = ("handshakes under loss/dup/reorder of SYN, SYN-ACK, ACK and error frames, forged handshake frames (random, stale, replayed or off-by-one nonces; wrong version; "
